@@ -11,6 +11,17 @@ from lib.common import InfraError, Violation
 OVERLAY = ["/verif/harness/overlay/asserts/zz_verif_assertdb_test.go"]
 PREDEF_REV = 1      # must equal PredefRev in the cfgs
 
+# Order-preserving materialisations of the abstract sequence numbers 1..5 as concrete `sequence` headers.
+# The spec stays small; the real side uses awkward numbers that straddle digit counts, so that an
+# on-disk enumeration ordered as strings (or any per-digit artefact) disagrees with the numeric order.
+SEQ_MAPS = [[2, 10, 100, 101, 1000], [9, 10, 11, 99, 100], [1, 2, 3, 4, 5], [8, 9, 10, 20, 100], [3, 20, 100, 1000, 10000],
+            [1, 10, 11, 100, 111]]
+
+
+def seq_map(seed, case):
+    return SEQ_MAPS[(seed + case) % len(SEQ_MAPS)]
+
+
 _last_re = re.compile(r'^/\\ last = (.*?)(?=^\s*$|^/\\ |\Z)', re.M | re.S)
 
 
@@ -160,7 +171,7 @@ def run_driver(ctx, cases, tag):
     os.makedirs(tmp)
     rows = []
     for c, ops in enumerate(cases):
-        rows.append({"case": c, "op": "Reset", "predef_rev": PREDEF_REV})
+        rows.append({"case": c, "op": "Reset", "predef_rev": PREDEF_REV, "seqmap": seq_map(ctx.seed, c)})
         rows.extend(ops)
     common.write_ndjson(inp, rows)
     tb = goharness.overlay_test_build(ctx, "asserts", OVERLAY)
@@ -172,6 +183,8 @@ def run_driver(ctx, cases, tag):
     if not m:
         raise InfraError("assertdb driver printed no stats:\n%s" % common.tail(o, 20))
     got = common.read_ndjson(outp)
+    for r in got:       # the concrete sequence numbers used for this behaviour (for replay files)
+        r["seqmap"] = seq_map(ctx.seed, r["case"])
     n_ops = sum(len(b) for b in cases)
     if len(got) != n_ops or int(m.group(2)) != n_ops:
         raise InfraError("assertdb driver answered %d of %d operations" % (len(got), n_ops))
@@ -251,7 +264,7 @@ def trace_validate(ctx, cases):
                 why = ("memory and filesystem backstores disagree: mem=%s fs=%s" % (mem, fs)) if mem != fs else \
                     "lookup returned a wrong assertion / unexpected error: %s" % mem
                 violations.append(Violation(key=where, desc="%s: %s" % (where, why),
-                                            replay={"case": c, "i": r["i"], "mem": r["mem"], "fs": r["fs"],
+                                            replay={"case": c, "i": r["i"], "mem": r["mem"], "fs": r["fs"], "concrete_sequence_numbers": r.get("seqmap"),
                                                     "behaviour": [show(x) for x in rows[:r["i"] + 1]]}))
                 break
             kept.append(r)
@@ -340,7 +353,7 @@ def evaluate(behaviours, got):
             if verdict is not None:
                 where = "%s after [%s]" % (show(op), " ".join(hist))
                 rec = {"case": c, "i": r["i"], "op": show(op), "history": list(hist), "spec": exp, "mem": r["mem"],
-                       "fs": r["fs"], "why": verdict[1],
+                       "fs": r["fs"], "why": verdict[1], "concrete_sequence_numbers": r.get("seqmap"),
                        "behaviour": [show(x) for x in rows[:r["i"] + 1]]}
                 if verdict[0] == "violation":
                     violations.append(Violation(key=where, desc="%s: %s" % (where, verdict[1]), replay=rec))
@@ -441,7 +454,9 @@ def run(ctx):
         assumptions=[
             "assertions are test-only / test-only-seq / account, signed with a real RSA key trusted by both databases",
             "one general backstore per database (no stacked backstores); single goroutine",
-            "revisions 0..3, formats 0..3, sequence numbers 1..3, 2 plain keys, 2 sequence keys in replayed behaviours",
+            "revisions 0..3, formats 0..3, sequence numbers 1..3, 2 plain keys, 2 sequence keys in replayed behaviours; "
+            "abstract sequence numbers are materialised through seeded order-preserving maps onto concrete numbers that "
+            "straddle digit counts (e.g. 2,10,100 / 9,10,11,99,100); FindSequence `after` also takes values between members",
             "error values other than the classes {revision(used,current), unsupported(format,update), clash-trusted, "
             "clash-predefined, notfound} are not compared",
         ])
